@@ -108,7 +108,9 @@ def mkConcat : List LTerm → LTerm
   | [t] => t
   | ts => .concat ts
 
-/-- take the leading terms of total width exactly `n` (none if `n` does not fall on a boundary) -/
+/-- take the leading terms of total width exactly `n`; a literal is split when the boundary falls inside it (z3 merges
+adjacent concrete bytes, e.g. the concrete tail of a partly symbolic key word with the slot word, and `simplify` splits the
+numeral again); none if `n` falls inside any other operand -/
 def takeWidth : Nat → List LTerm → Option (List LTerm × List LTerm)
   | 0, ts => some ([], ts)
   | _ + 1, [] => none
@@ -117,7 +119,10 @@ def takeWidth : Nat → List LTerm → Option (List LTerm × List LTerm)
       match takeWidth (n + 1 - t.width) ts with
       | some (a, b) => some (t :: a, b)
       | none => none
-    else none
+    else
+      match t with
+      | .lit w v => some ([.lit (n + 1) (v / 2 ^ (w - (n + 1)))], .lit (w - (n + 1)) (v % 2 ^ (w - (n + 1))) :: ts)
+      | _ => none
 
 /-- `simplify(Extract(hi, lo, t))` on the shapes that matter: literals, whole terms, aligned parts of a concatenation -/
 def simpExtract (hi lo : Nat) (t : LTerm) : LTerm :=
